@@ -2,6 +2,7 @@ package system
 
 import (
 	"fmt"
+	"math"
 	"time"
 
 	dtpb "github.com/google/fhir/go/proto/google/fhir/proto/r4/core/datatypes_go_proto"
@@ -138,19 +139,26 @@ func (q Quantity) timeDuration() (time.Duration, error) {
 	value := decimal.Decimal(q.value).IntPart()
 
 	var duration time.Duration
+	var unit time.Duration
 	switch q.unit {
 	case "hour", "hours":
-		duration = time.Hour * time.Duration(value)
+		unit = time.Hour
 	case "minute", "minutes":
-		duration = time.Minute * time.Duration(value)
+		unit = time.Minute
 	case "second", "seconds":
-		milliseconds := decimal.Decimal(q.value).Round(3).Shift(3).IntPart() // Keep decimal precision below seconds
-		duration = time.Millisecond * time.Duration(milliseconds)
+		value = decimal.Decimal(q.value).Round(3).Shift(3).IntPart() // Keep decimal precision below seconds
+		unit = time.Millisecond
 	case "millisecond", "milliseconds":
-		duration = time.Millisecond * time.Duration(value)
+		unit = time.Millisecond
 	default:
 		return time.Duration(0), fmt.Errorf("%w: not a time-valued unit", ErrMismatchedUnit)
 	}
+	// A time.Duration counts nanoseconds in 64 bits (about 292 years): a larger
+	// amount would wrap around and silently move the result into the past.
+	if limit := int64(math.MaxInt64 / unit); value > limit || value < -limit || !decimal.Decimal(q.value).Abs().LessThan(decimal.New(1, 18)) {
+		return time.Duration(0), fmt.Errorf("%w: %v %v is beyond the supported span", ErrIntOverflow, decimal.Decimal(q.value), q.unit)
+	}
+	duration = unit * time.Duration(value)
 	return duration, nil
 }
 
